@@ -1,5 +1,5 @@
 """C08 — operators are type-safe: only documented operand pairs produce a result (exhaustive enumeration)."""
-import math, operator
+import math, operator, copy
 import numpy as np
 from .common import Laws, run_subprocess, main_entry
 from .. import inputs
@@ -65,7 +65,7 @@ def documented(l, r, op):
         if op == '@':
             if l == 'SpatialVelocity' and r == 'SpatialVelocity': return ('cls', 'SpatialAcceleration')
             if l == 'SpatialVelocity' and r == 'SpatialForce': return ('cls', 'SpatialForce')
-            return None
+            return None if l == 'SpatialVelocity' else 'raise'      # only a velocity has a cross product
         if l != r: return 'raise'
         return None if op == '@' else 'raise'
     if l == 'SpatialInertia':
@@ -175,6 +175,42 @@ def _impl(tier, seed, search):
                     except Exception as e: got = ('raised', type(e).__name__)
                     if got != want:
                         L.fail(f'scalar:{c}:{opn}', f'{c} {opn} scalar is documented to return {want[1]} but gave {got}', inp, observed=got, required=want)
+        # augmented assignment (X op= Y) gives what the binary operator gives: same class or same exception, for objects and scalars
+        IOPS = {'*': operator.imul, '/': operator.itruediv, '+': operator.iadd, '-': operator.isub}
+        for l in ALL:
+            for r in ALL + ['scalar']:
+                for op, fi in IOPS.items():
+                    for ml in (1, 2):
+                        if ml > 1 and l not in LISTY: continue
+                        if r == 'scalar':
+                            if l not in POSE + QUAT + ['Twist2', 'Twist3']: continue
+                        elif documented(l, r, op) is None: continue
+                        inp = dict(left=l, right=r, op=op + '=', len_left=ml)
+                        L.count('augmented', key=(l, r, op, ml)); L.sample('augmented', inp)
+                        try: X_, Z_ = mk(l, ml), (2.0 if r == 'scalar' else mk(r, 1))
+                        except Exception: continue
+                        # only where the library defines the augmented operator itself (UserList's += / *= are list extension / repetition)
+                        iname_ = {'*': '__imul__', '/': '__itruediv__', '+': '__iadd__', '-': '__isub__'}[op]
+                        owner_ = next((k_ for k_ in type(X_).__mro__ if iname_ in k_.__dict__), None)
+                        if owner_ is None or not owner_.__module__.startswith('spatialmath') or owner_.__name__ == 'SMUserList': continue
+                        try: want_ = classify(OPS[op](copy.deepcopy(X_), copy.deepcopy(Z_)))
+                        except Exception as e: want_ = ('raised',)
+                        try:
+                            y_ = fi(X_, Z_); got_ = classify(y_)
+                        except Exception as e: got_ = ('raised',); y_ = None
+                        if got_ != want_ and not (l in ('Twist2', 'Twist3', 'Plucker') and op == '+'):       # (+= on the list-like classes is list extension)
+                            L.fail(f'augmented:{l}{op}={r}', f'{l} {op}= {r} gives {got_[-1]} where {l} {op} {r} gives {want_[-1]}', inp, observed=got_, required=want_)
+                        elif y_ is not None and type(y_).__name__ in ('UnitQuaternion',) and any(abs(float(np.linalg.norm(np.asarray(a_, float))) - 1) > 1e-6 for a_ in y_.data):
+                            L.fail(f'augmented:{l}{op}={r}:not-unit', f'{l} {op}= {r} returned a UnitQuaternion holding a quaternion that is not of unit norm', inp)
+        # a line times anything that is not a line (arrays of six numbers included) has no meaning
+        for rv_ in ([1.0, 2, 3, 4, 5, 6], (1.0, 2, 3, 4, 5, 6), np.arange(6.0), np.arange(6.0).reshape(6, 1), np.arange(6.0).reshape(1, 6), 2.0, np.arange(3.0)):
+            for opn_, fo_ in (('*', operator.mul), ('+', operator.add), ('-', operator.sub), ('/', operator.truediv)):
+                if opn_ != '*' and not isinstance(rv_, (list, tuple)) and np.ndim(rv_) == 0: continue
+                inp = dict(cls='Plucker', op=opn_, right=type(rv_).__name__ + str(np.shape(rv_)))
+                L.count('plucker-array', key=(opn_, inp['right'])); L.sample('plucker-array', inp)
+                try: got = classify(fo_(mk('Plucker'), rv_))
+                except Exception: continue
+                L.fail(f'must-raise:Plucker{opn_}array', f'Plucker {opn_} {inp["right"]} must raise but returned {got}', inp, observed=got, required='exception')
         # operands that are not library objects: integer powers only; a point may only be transformed by a *unit* dual quaternion
         for c in POSE + QUAT:
             for m in (1, 2):
